@@ -297,6 +297,7 @@ func (p *Program) newBareExec() *Exec {
 		truthCache:  map[*Term]bool{},
 		varSeq:      map[string]int{},
 		pools:       map[*value][]value{},
+		syncMaps:    map[*value]*syncMapModel{},
 		fnSeen:      map[*ssa.Function]bool{},
 		extSeen:     map[string]bool{},
 		uninterp:    map[string]*Term{},
